@@ -125,7 +125,108 @@ def nontrivial(h, model):
     return any(st[0] in ("set", "iop", "out") for st in h) and len(model.order) > len(set(model.fam[n] for n in model.order))
 
 
+# ------------------------------------------------------------------ non-finite incoming gradients
+# "overwritten elements pass nothing to their old contents" also when the gradient arriving at an overwritten slot is infinite
+# (a later op with infinite slope at the written value): a = leaf; x = a * 1.0; [t = view of x]; t[idx] = value; L = f(x).sum()
+INF_TARGETS = {"x": lambda x: x, "x[...]": lambda x: x[...], "x[::-1]": lambda x: x[::-1], "x.reshape(2,2)": lambda x: x.reshape(2, 2)}
+INF_IDX = {"0": lambda: 0, "0:2": lambda: slice(0, 2), "[0, 0]": lambda: [0, 0], "bool": lambda: np.array([True, False, False, True]), "...": lambda: ...}
+INF_F = {"sqrt": (lambda mg, x: mg.sqrt(x), lambda v: 0.5 / np.sqrt(v)), "log": (lambda mg, x: mg.log(x), lambda v: 1.0 / v), "x ** 0.5": (lambda mg, x: x ** 0.5, lambda v: 0.5 / np.sqrt(v)),
+         "reciprocal": (lambda mg, x: mg.reciprocal(x), lambda v: -1.0 / v ** 2)}
+INF_FORMS = ("set_scalar", "set_tensor", "masked_out")
+
+
+def inf_cells():
+    for tn in INF_TARGETS:
+        for ik in INF_IDX:
+            for fn in INF_F:
+                for form in INF_FORMS:
+                    yield (tn, ik, fn, form)
+
+
+def check_inf(cell):
+    import mygrad as mg
+
+    tn, ik, fn, form = cell
+    base.reset_mygrad()
+    A = np.array([4.0, 9.0, 16.0, 25.0])
+    a = mg.tensor(A.copy())
+    x = a * 1.0
+    t = INF_TARGETS[tn](x)
+    ref = A.copy()  # the memory after the update, as NumPy does it
+    rv = INF_TARGETS[tn](ref)
+    idx = INF_IDX[ik]()
+    if tn == "x.reshape(2,2)" and ik == "bool":
+        idx = np.array([[True, False], [False, True]])
+    b = None
+    try:
+        if form == "set_scalar":
+            t[idx] = 0.0
+            rv[idx] = 0.0
+        elif form == "set_tensor":
+            shape = np.shape(rv[idx])
+            b = mg.tensor(np.zeros(shape))
+            t[idx] = b
+            rv[idx] = 0.0
+        elif form == "imul0":
+            if ik != "...":
+                return ("skip", "augmented form is exercised on the whole target")
+            t *= 0.0
+            rv *= 0.0
+        else:
+            if ik != "...":
+                return ("skip", "masked form is exercised on the whole target")
+            m = (np.arange(rv.size).reshape(rv.shape) % 2 == 0)
+            # the selected slots are overwritten with a value that does not depend on the old contents
+            mg.positive(np.zeros(rv.shape), where=m, out=t)
+            np.positive(np.zeros(rv.shape), where=m, out=rv)
+    except Exception as e:
+        eb = base.exc_brief(e)
+        del e
+        return ("exception", "%s: %s" % eb)
+    if not np.array_equal(x.data, ref):
+        return ("skip", "forward differs (C04's business)")
+    with np.errstate(all="ignore"):
+        try:
+            INF_F[fn][0](mg, x).sum().backward()
+        except Exception as e:
+            eb = base.exc_brief(e)
+            del e
+            return ("exception", "backward: %s: %s" % eb)
+        slope = INF_F[fn][1](ref)
+    written = ref != A if form != "masked_out" else None
+    # old contents: overwritten slots get exactly 0, untouched slots the slope at their (unchanged) value; masked-out slots likewise
+    exp = np.where(ref == A, slope, 0.0) if form != "imul0" else np.zeros(4)
+    if form == "imul0":
+        exp = np.zeros(4)  # d(0 * a)/da = 0 everywhere (0 * inf must not leak either)
+    g = a.grad
+    if g is None or g.shape != exp.shape or not np.allclose(g, exp, rtol=1e-12, atol=0, equal_nan=False):
+        return ("grad_value", "old contents a: grad %s expected %s (target %s, index %s, consumer %s, form %s)" % (None if g is None else explore.fmt(g), explore.fmt(exp), tn, ik, fn, form))
+    return None
+
+
+def run_inf_task(task):
+    acc = base.Acc()
+    for cell in inf_cells():
+        r = check_inf(cell)
+        acc.inc("evaluations")
+        if r is not None and r[0] == "skip":
+            acc.outcome("skip: " + r[1])
+            continue
+        acc.inc("traces")
+        acc.inc("transitions")
+        acc.states.add(hash(("inf", cell)))
+        acc.nontrivial.add(base.stable_hash(("inf", cell)))
+        if r is not None:
+            acc.violation({"case": {"inf": list(cell), "init": [], "history": []}, "failure": (2, ("backward",), r[0], "a", r[1])})
+            acc.outcome("fail:" + r[0])
+        else:
+            acc.outcome("ok:non-finite gradient at an overwritten slot")
+    return acc
+
+
 def run_task(task):
+    if task[0] == "inf":
+        return run_inf_task(task)
     wname, prefix, depth, seed = task
     init, cfg = WORLDS[wname]
     acc = base.Acc()
@@ -144,6 +245,7 @@ def plan(tier, seed):
         k = 2 if depth >= 3 else 1
         for p in explore.prefixes(init, cfg, k, seed):
             tasks.append((wname, p, depth, seed))
+    tasks.append(("inf",))
     return dict(
         tasks=tasks,
         run=run_task,
@@ -172,6 +274,9 @@ def _fails(init, h, seed):
 
 
 def replay(case):
+    if case.get("inf"):
+        r = check_inf(tuple(case["inf"]))
+        return [dict(failure=(2, ("backward",), r[0], "a", r[1]))] if r is not None and r[0] != "skip" else []
     init = [(i[0], tuple(i[1])) + tuple(i[2:]) for i in case["init"]]
     h = [tuplify(s) for s in case["history"]]
     f = _fails(init, h, case.get("seed", 0))
@@ -182,6 +287,15 @@ def finalize(v):
     import harness.C04 as C04
 
     case = v["case"]
+    if case.get("inf"):
+        r = replay(case)
+        if not r:
+            return None
+        f = r[0]["failure"]
+        c = case["inf"]
+        return dict(case=case, failure=dict(kind=f[2], detail=f[4]), min_history=[],
+                    script="import mygrad as mg, numpy as np\na = mg.tensor([4., 9., 16., 25.]); x = a * 1.0; t = %s\n# update form %s at index %s, then mg.%s(x).sum().backward()\n# %s: %s\n" % (c[0].replace("x", "x", 1), c[3], c[1], c[2], f[2], f[4]),
+                    signature=base.stable_hash(("inf", c[0], c[3], f[2])))
     init = [(i[0], tuple(i[1])) + tuple(i[2:]) for i in case["init"]]
     seed = case.get("seed", 0)
     h = [tuplify(s) for s in case["history"]]
